@@ -336,6 +336,17 @@ theorem run_facts (req0 : List ReqItem) (acts : List Act) : ∀ (s : St) (s' : S
     · rw [h2, step_hdr s a s1 r hs, okHdr_cons a acts r rs', List.append_assoc]
     · rw [m2, step_received s a s1 r hs, msgsOf_cons r rs', List.append_assoc]
 
+/-- the trailer says OK only if the handler returned nil -/
+theorem trailerCode_zero (e : Option HErr) : trailerCode e = 0 → e = none := by
+  intro h
+  cases e with
+  | none => rfl
+  | some x =>
+    cases x with
+    | status c => simp only [trailerCode, Gen.streamOkRewrite] at h; split at h <;> simp_all
+    | plain => simp [trailerCode] at h
+    | ctx r => cases r <;> simp [trailerCode, codeOf] at h
+
 /-- A reply over an intact connection: the header block with exactly the metadata of the successful
     SetHeader/SendHeader calls, then data frames only, then one trailer frame carrying the handler's
     status code and every SetTrailer metadata in call order. -/
